@@ -192,7 +192,7 @@ impl Property for P {
         ]
     }
     fn workloads(&self, tier: Tier) -> Vec<Workload> {
-        vec![Workload::new("handshakes", tier.pick(12_000, 400_000), false, "random handshake scenarios")]
+        vec![Workload::new("handshakes", tier.pick(12_000, 2_000_000), false, "random handshake scenarios")]
     }
     fn run_case(&self, wl: &str, idx: u64, seed: u64, rec: &mut Rec) {
         let mut rng = Rng::derive(seed, wl, idx);
